@@ -9,6 +9,7 @@ ops
   render_b   case = {"templates", "main", "ctx"} -> {"ok": text} | {"err": class}  (bundled plain Environment + DictLoader)
   diff       case = {"templates", "main", "ctx"} -> {"b": {...}, "s": {...}}        (both plain Environments)
   ext        case = {"src", "ctx", "queries": {name: bool}} -> {"ok"...}            (nunavut CodeGenEnvironment, target c)
+  render_cg  case = {"templates", "main", "ctx", "opts": {trim_blocks, lstrip_blocks}} -> {"ok"} | {"err"}   (real CodeGenEnvironment)
   ext_seq    case = {"templates", "plain", "scripts": {name: [bool]}, "steps": [template name]} -> {"n": [...], "s": [...]}
   parse_b    case = source string            -> repr of the bundled AST (env.parse) | {"err": class}
 """
@@ -17,7 +18,11 @@ import sys
 
 
 def _err(ex):
-    return {'err': type(ex).__name__}
+    out = {'err': type(ex).__name__}
+    ln = getattr(ex, 'lineno', None)
+    if isinstance(ln, int):
+        out['lineno'] = ln          # TemplateSyntaxError / TemplateAssertionError: the template line both engines blame
+    return out
 
 
 def main():
@@ -36,9 +41,19 @@ def main():
             err = type(ex).__name__
         return {'toks': toks, 'err': err}
 
+    FINALIZERS = {'none_to_empty': (lambda v: '' if v is None else v)}
+
+    def env_opts(c, mod):
+        o = dict(c.get('opts', {}))
+        if 'finalize' in o:
+            o['finalize'] = FINALIZERS[o['finalize']]
+        if o.pop('strict_undefined', False):
+            o['undefined'] = mod.StrictUndefined
+        return o
+
     def render(envcls, loadercls, c):
         try:
-            env = envcls(loader=loadercls(c['templates']), **c.get('opts', {}))
+            env = envcls(loader=loadercls(c['templates']), **env_opts(c, B if envcls is B.Environment else S))
             return {'ok': env.get_template(c['main']).render(**c['ctx'])}
         except RecursionError:
             return {'err': 'RecursionError'}
@@ -82,6 +97,24 @@ def main():
                 for k, v in c.get('queries', {}).items():
                     setattr(uq, k, (lambda r: (lambda: r))(v))
                 outs.append({'ok': env.get_template('t').render(**c['ctx'])})
+            except Exception as ex:  # noqa
+                outs.append(_err(ex))
+    elif op == 'render_cg':
+        # nunavut's own environment class (extensions, StrictUndefined, keep_trailing_newline, select_autoescape, its filters/tests),
+        # target language c, trim_blocks / lstrip_blocks as the nnvg options set them
+        from nunavut.jinja import CodeGenEnvironmentBuilder
+        from nunavut.jinja.jinja2.filters import do_lineprefix as _lp
+        from nunavut.lang import LanguageContextBuilder
+        lctx = LanguageContextBuilder().set_target_language('c').create()
+        for c in cases:
+            try:
+                o = c.get('opts', {})
+                env = (CodeGenEnvironmentBuilder(B.DictLoader(c['templates']), lctx).set_trim_blocks(bool(o.get('trim_blocks')))
+                       .set_lstrip_blocks(bool(o.get('lstrip_blocks'))).create())
+                if env.filters.get('lineprefix') is not _lp:
+                    outs.append({'err': 'LineprefixFilterReplaced'})
+                    continue
+                outs.append({'ok': env.get_template(c['main']).render(**c['ctx'])})
             except Exception as ex:  # noqa
                 outs.append(_err(ex))
     elif op == 'ext_seq':
